@@ -14,7 +14,60 @@ use crate::sched;
 use crate::vptr::VPtr;
 
 pub type T = Option<VPtr>;
-pub type Cont<S> = Arc<ArcSwapAny<T, S>>;
+/// The containers of one execution live NEXT TO EACH OTHER in one block of memory, like the elements of a `Vec<ArcSwap>` or
+/// the fields of a struct (C12: isolation must not depend on the containers being far apart).
+pub struct Slot<S: Strategy<T>>(*mut ArcSwapAny<T, S>);
+unsafe impl<S: Strategy<T> + Send + Sync> Send for Slot<S> {}
+unsafe impl<S: Strategy<T> + Send + Sync> Sync for Slot<S> {}
+impl<S: Strategy<T>> Drop for Slot<S> {
+    fn drop(&mut self) {
+        // the memory itself stays with the (leaked) block
+        unsafe { std::ptr::drop_in_place(self.0) }
+    }
+}
+pub struct Cont<S: Strategy<T>>(Arc<Slot<S>>);
+impl<S: Strategy<T>> Clone for Cont<S> {
+    fn clone(&self) -> Self {
+        Cont(self.0.clone())
+    }
+}
+impl<S: Strategy<T>> std::ops::Deref for Cont<S> {
+    type Target = ArcSwapAny<T, S>;
+    fn deref(&self) -> &ArcSwapAny<T, S> {
+        unsafe { &*(self.0).0 }
+    }
+}
+/// (start of the current block, bytes used); a fresh block per execution
+static ARENA: Mutex<(usize, usize)> = Mutex::new((0, 0));
+pub fn arena_reset() {
+    *ARENA.lock().unwrap_or_else(|p| p.into_inner()) = (0, 0);
+}
+impl<S: Strategy<T>> Cont<S> {
+    fn new(c: ArcSwapAny<T, S>) -> Self {
+        let (size, align) = (std::mem::size_of::<ArcSwapAny<T, S>>(), std::mem::align_of::<ArcSwapAny<T, S>>());
+        let mut a = ARENA.lock().unwrap_or_else(|p| p.into_inner());
+        if a.0 == 0 || a.1 + size > 1024 {
+            let block = unsafe { std::alloc::alloc(std::alloc::Layout::from_size_align(1024, 64).unwrap()) };
+            *a = (block as usize, 0);
+        }
+        a.1 = (a.1 + align - 1) / align * align;
+        let p = (a.0 + a.1) as *mut ArcSwapAny<T, S>;
+        a.1 += size;
+        unsafe { std::ptr::write(p, c) };
+        Cont(Arc::new(Slot(p)))
+    }
+    /// The container itself, if nobody else (a cache, a projection) refers to it.
+    fn try_take(self) -> Result<ArcSwapAny<T, S>, Self> {
+        match Arc::try_unwrap(self.0) {
+            Ok(slot) => {
+                let v = unsafe { std::ptr::read(slot.0) };
+                std::mem::forget(slot);
+                Ok(v)
+            }
+            Err(a) => Err(Cont(a)),
+        }
+    }
+}
 
 #[derive(Clone, Debug, Serialize, Deserialize)]
 #[serde(rename_all = "snake_case")]
@@ -489,7 +542,7 @@ where
             let val = mk_src(w, v, -1);
             let id = val_id(&val);
             arg(id);
-            let cont = Arc::new(ArcSwapAny::<T, S>::new(val));
+            let cont = Cont::new(ArcSwapAny::<T, S>::new(val));
             let addr = cont.verif_ptr_addr();
             sched::with(|g| g.roles.add_storage(addr, *c as i64));
             put(&mut wl(w).conts, *c, cont);
@@ -703,7 +756,7 @@ where
         Op::IntoInnerC { c, h } => {
             let Some(cont) = take(&mut wl(w).conts, *c) else { return };
             inv("into_inner_c", *c as i64, 0, 0, *h as i64);
-            match Arc::try_unwrap(cont) {
+            match cont.try_take() {
                 Ok(cs) => {
                     let v = cs.into_inner();
                     let id = val_id(&v);
@@ -721,7 +774,7 @@ where
         Op::DropC { c, unwinding } => {
             let Some(cont) = take(&mut wl(w).conts, *c) else { return };
             inv("drop_c", *c as i64, 0, 0, 0);
-            match Arc::try_unwrap(cont) {
+            match cont.try_take() {
                 Ok(cs) => {
                     if *unwinding {
                         // the frame that owns the container panics: the container is dropped while the thread is panicking
